@@ -8,5 +8,7 @@ mod table;
 mod test;
 
 pub use self::decoder::{Decoder, DecoderError};
+#[cfg(feature = "verif-hooks")]
+pub use self::decoder::NeedMore;
 pub use self::encoder::Encoder;
 pub use self::header::{BytesStr, Header};
